@@ -102,3 +102,102 @@ func H_C06_parallel() {
 	}
 	vxrt.Assert(len(final) == total, "C06:no-duplicate-or-torn-entry")
 }
+
+// H_C06_twocalls: two tests run concurrently against one snapshot file, each recording two
+// new snapshots; whatever the interleaving, both tests see "added" twice and the file ends up
+// with the four slots holding their values (ordinals are per test, also when both tests touch
+// the file for the first time at the same moment).
+func H_C06_twocalls() {
+	vxrt.CI(false)
+	vxrt.EnvFixed("NO_COLOR", "1")
+	dir := vxrt.Dir()
+	path := dir + "/f.snap"
+	if !vxrt.Bool("brand-new-file") {
+		writeFile(path, frame("TestZ - 1", bystander()))
+	}
+	c := WithConfig(Dir(dir), Filename("f"))
+	_ = isCI
+	names := [2]string{"TestA", "TestB"}
+	ts := [2]*mockT{newT(names[0]), newT(names[1])}
+	var wg sync.WaitGroup
+	wg.Add(2)
+	for g := 0; g < 2; g++ {
+		g := g
+		go func() {
+			defer wg.Done()
+			c.MatchSnapshot(ts[g], names[g]+"-one")
+			c.MatchSnapshot(ts[g], names[g]+"-two")
+		}()
+	}
+	wg.Wait()
+	ts[0].end()
+	ts[1].end()
+	for g := 0; g < 2; g++ {
+		vxrt.Assert(len(ts[g].errors) == 0 && len(ts[g].logs) == 2, "C06:create-outcome-as-serial")
+		one, _, err1 := getPrevSnapshot("["+names[g]+" - 1]", path)
+		two, _, err2 := getPrevSnapshot("["+names[g]+" - 2]", path)
+		vxrt.Assert(err1 == nil && err2 == nil, "C06:no-entry-lost")
+		vxrt.Assert(one == names[g]+"-one" && two == names[g]+"-two", "C06:entry-has-the-right-value")
+	}
+}
+
+// H_C06_three: three tests run concurrently against one file and each finishes (its cleanups
+// run) on its own goroutine: A records two snapshots, B updates its stored entry
+// (read-modify-write), C records one. Whatever the interleaving no entry is lost and every
+// slot holds its value.
+func H_C06_three() {
+	vxrt.CI(false)
+	vxrt.EnvFixed("NO_COLOR", "1")
+	dir := vxrt.Dir()
+	path := dir + "/f.snap"
+	writeFile(path, frame("TestB - 1", "old")+frame("TestZ - 1", bystander()))
+	plain := WithConfig(Dir(dir), Filename("f"))
+	upd := WithConfig(Dir(dir), Filename("f"), Update(true))
+	_ = isCI
+	ta, tb, tc := newT("TestA"), newT("TestB"), newT("TestC")
+	var wg sync.WaitGroup
+	wg.Add(3)
+	go func() {
+		defer wg.Done()
+		vxrt.Stagger()
+		plain.MatchSnapshot(ta, "a-one")
+		plain.MatchSnapshot(ta, "a-two")
+		ta.end()
+	}()
+	go func() {
+		defer wg.Done()
+		vxrt.Stagger()
+		upd.MatchSnapshot(tb, "new")
+		tb.end()
+	}()
+	go func() {
+		defer wg.Done()
+		vxrt.Stagger()
+		plain.MatchSnapshot(tc, "c-one")
+		tc.end()
+	}()
+	wg.Wait()
+	vxrt.Assert(len(ta.errors)+len(tb.errors)+len(tc.errors) == 0 && len(ta.logs) == 2 && len(tb.logs) == 1 && len(tc.logs) == 1, "C06:outcomes-as-serial")
+	for _, e := range [][2]string{{"TestA - 1", "a-one"}, {"TestA - 2", "a-two"}, {"TestB - 1", "new"}, {"TestC - 1", "c-one"}, {"TestZ - 1", bystander()}} {
+		got, _, err := getPrevSnapshot("["+e[0]+"]", path)
+		vxrt.Assert(err == nil, "C06:no-entry-lost")
+		vxrt.Assert(got == e[1], "C06:entry-has-the-right-value")
+	}
+}
+
+// bystander is the body of an entry nobody addresses. In the native twin it is large (4 MiB), which
+// only widens the window of a read-modify-write so that the stress replay has a chance to meet an
+// interleaving the engine found; the engine explores the same scenario with a one-byte body.
+func bystander() string {
+	if vxrt.Symbolic() {
+		return "z"
+	}
+	b := make([]byte, 4<<20)
+	for i := range b {
+		b[i] = 'z'
+		if i%100 == 99 {
+			b[i] = '\n'
+		}
+	}
+	return string(b)
+}
